@@ -696,3 +696,11 @@ package datalog
 //@ requires d.SymbolTable != nil && s != nil
 //@ modifies nothing
 //@ loop 0 invariant len(strs) == len(*s) && fresh(arr(strs))
+
+//@ func (t *SymbolTable) SplitOff(at int) (res *SymbolTable)
+//@ serves C07 C08 C10
+//@ requires t != nil && 0 <= at
+//@ modifies *t
+//@ panics if at > len(*t)
+//@ ensures tail: res != nil && fresh(res) && fresh(arr(*res)) && len(*res) == old(len(*t)) - at && (forall j int :: { (*res)[j] } 0 <= j && j < len(*res) ==> (*res)[j] == old((*t)[at + j]))
+//@ ensures head: len(*t) == at && arr(*t) == old(arr(*t)) && off(*t) == old(off(*t)) && cap(*t) == old(cap(*t))
